@@ -98,6 +98,9 @@ pub enum ParseErrorKind {
     #[error("Trailing characters: '{0}'")]
     TrailingCharacters(String),
 
+    #[error("Too many '!' in a row: the order of a multifactorial can be at most {0}")]
+    FactorialOrderTooLarge(usize),
+
     #[error("Trailing '=' sign. Use `let {0} = …` if you intended to define a new constant.")]
     TrailingEqualSign(String),
 
@@ -1376,6 +1379,13 @@ impl<'a> Parser<'a> {
                 Some(span) => *span = span.extend(&current_span),
             };
             order += 1;
+        }
+        if order > u16::MAX as usize {
+            // The bytecode encodes the order in 16 bits; do not silently truncate it.
+            return Err(ParseError::new(
+                ParseErrorKind::FactorialOrderTooLarge(u16::MAX as usize),
+                span.unwrap(), // safe because order != 0
+            ));
         }
         if order != 0 {
             expr = Expression::UnaryOperator {
